@@ -275,6 +275,8 @@ class GenTask(Task):
     d: Param[Dict[str, Leaf]] = {}
     bag: Param[Optional[Bag]]
     own: Meta[Path] = field(default_factory=PathGenerator("own.txt"))
+    # a generated value that is not a path (sealed between the two paths)
+    seed: Param[int] = field(default_factory=lambda: 1234)
     log: Meta[Path] = field(default_factory=PathGenerator("log.txt"))
 
     def execute(self):
